@@ -26,6 +26,22 @@ class HarnessError(Exception):
     """Infrastructure failure (exit 2, never a VIOLATION)."""
 
 
+def raised_in_repo(exc: BaseException) -> str | None:
+    """If the innermost frame of exc's traceback is a source file of the repository under test, a one-line description
+    ('ExcType: msg at file:line in func'); None when the exception comes from the harness's own code."""
+    tb = exc.__traceback__
+    last = None
+    while tb is not None:
+        last = tb
+        tb = tb.tb_next
+    if last is None:
+        return None
+    fn = last.tb_frame.f_code.co_filename
+    if not os.path.abspath(fn).startswith(os.path.abspath(REPO) + os.sep):
+        return None
+    return '%s: %s at %s:%d in %s' % (type(exc).__name__, str(exc)[:120], os.path.relpath(fn, REPO), last.tb_lineno, last.tb_frame.f_code.co_name)
+
+
 def setup_paths() -> None:
     for p in (REPO_SRC, VERIF, DEPS):
         if p not in sys.path:
